@@ -24,6 +24,7 @@ type HarnessRun struct {
 	OpaqueStrMax int
 	SkipInit     map[string]bool
 	RunInitFuncs map[string]bool
+	HashCollisions bool
 	NoMerge      bool
 	Lim          Limits
 	Workers      int
